@@ -8,7 +8,7 @@ shard cursors), Group (sort key with 0xff for a missing key, stable sort, runs o
 FilterContract, GroupContract and Partition for every dataset x range x predicate x group-key list of the domain.
 
 Binding: every final TLC state is a request with its expected results; requests are grouped by dataset and replayed by
-harness/cmd/storageread on v1/services/storage Store.ReadFilter / ReadGroup over a real two-shard tsdb.Store with a
+harness/cmd/storageread on v1/services/storage Store.ReadFilter / ReadGroup over a real two- or three-shard tsdb.Store with a
 fake MetaClient, under a seed-dependent order-preserving concretisation (escape-heavy names, all field types, time
 base/unit, data partly flushed to TSM files)."""
 import json
@@ -19,7 +19,7 @@ import tlaval
 import vlib
 
 
-def cfg_text(series, patterns, ranges, preds):
+def cfg_text(series, patterns, ranges, preds, nshards=2):
     n = lambda xs: '{' + ', '.join(str(x) for x in xs) + '}'
     pats = '{' + ', '.join(n(p) for p in patterns) + '}'
     return f'''SPECIFICATION Spec
@@ -29,6 +29,7 @@ CONSTANTS
   RangeIdx = {n(ranges)}
   PredIdx = {n(preds)}
   H = 4
+  NShards = {nshards}
 INVARIANTS FilterContract GroupContract Partition
 CHECK_DEADLOCK FALSE
 '''
@@ -67,13 +68,18 @@ def run(ctx):
     binary = ctx.go_build('storageread')
     allpreds = list(range(1, 13))
     if tier == 'quick':
-        slices = [dict(series=[1, 2, 3, 6], patterns=[[], [1, 3], [4, 6], [2, 3, 4, 5]], ranges=[1, 2, 3, 4], preds=allpreds)]
+        slices = [dict(series=[1, 2, 3, 6], patterns=[[], [1, 3], [4, 6], [2, 3, 4, 5]], ranges=[1, 2, 3, 4], preds=allpreds),
+                  # three shards: a series with a gap in the middle shard while another series of the same measurement+field
+                  # has points there (non-nil but empty cursor in the middle of a series), series starting in shard 3
+                  dict(series=[1, 3, 6], patterns=[[], [1, 9], [5, 6], [3, 4, 8], [10]], ranges=[8, 9, 10], preds=[1, 3, 5, 8, 9, 11],
+                       nshards=3)]
         max_reqs = 16000
     else:
         slices = [dict(series=[1, 2, 3, 4, 5, 6], patterns=[[], [1, 3], [2, 3, 4, 5]], ranges=[1, 2, 3, 4, 5, 6, 7], preds=allpreds),
-                  dict(series=[1, 2, 3, 4, 6], patterns=[[], [1, 3], [4, 6], [2, 3, 4, 5], [0, 7]], ranges=[1, 2, 3], preds=[1, 3, 8, 9, 10])]
+                  dict(series=[1, 2, 3, 4, 6], patterns=[[], [1, 3], [4, 6], [2, 3, 4, 5], [0, 7]], ranges=[1, 2, 3], preds=[1, 3, 8, 9, 10]),
+                  dict(series=[1, 2, 3, 6], patterns=[[], [1, 9], [5, 6], [3, 4, 8], [10]], ranges=[8, 9, 10, 11], preds=allpreds, nshards=3)]
         max_reqs = None
-    total = replayed = ntreq = 0
+    total = replayed = ntreq = gapreq = 0
     exhaustive = True
     for sl in slices:
         r = ctx.tlc_must_pass('StorageRead', cfg_text(**sl), timeout=1700, dump=True, coverage=True, workers=min(vlib.NCPU, 12))
@@ -84,7 +90,7 @@ def run(ctx):
             key = json.dumps(c['ds'], sort_keys=True)
             g = groups.get(key)
             if g is None:
-                g = groups[key] = {'ds': c['ds'], 'pool': c['pool'], 'h': c['h'], 'gks': c['gks'], 'reqs': []}
+                g = groups[key] = {'ds': c['ds'], 'pool': c['pool'], 'h': c['h'], 'n': c['n'], 'gks': c['gks'], 'reqs': []}
             g['reqs'].append({'lo': c['lo'], 'hi': c['hi'], 'pred': c['pred'], 'filter': e['filter'], 'groups': e['groups']})
             total += 1
         try:
@@ -109,6 +115,7 @@ def run(ctx):
         good = [x for x in res if x.get('ok') or x.get('kind') == 'infra']
         for x in res:
             ntreq += int((x.get('extra') or {}).get('nontrivial_requests', 0))
+            gapreq += int((x.get('extra') or {}).get('gap_requests', 0))
         ctx.absorb(good, lines, sample=0)
         if bad:
             singles, origin, keep = [], [], []
@@ -132,7 +139,10 @@ def run(ctx):
     ctx.extra_cov['requests_replayed'] = replayed
     ctx.extra_cov['reads_per_request'] = 9
     ctx.extra_cov['nontrivial_requests'] = ntreq
-    ctx.rule = ('request = (dataset: timestamp pattern per series of the pool over two shards, range, predicate, and all 8 group-key lists '
+    ctx.extra_cov['requests_with_series_gap_in_middle_shard'] = gapreq
+    if gapreq == 0:
+        raise vlib.Inconclusive('vacuity guard: no replayed request returned a series with a gap in the middle of three shards')
+    ctx.rule = ('request = (dataset: timestamp pattern per series of the pool over two shards (first slice) or three shards (second slice: gaps in the middle shard), range, predicate, and all 8 group-key lists '
                 'incl. group none); every request is model-checked; a replay case = one dataset (one real two-shard store) with its '
                 'requests (all of them, or a seeded sample per dataset when above the quick budget), each request = 1 ReadFilter + 8 '
                 'ReadGroup; evaluations = reads; non-trivial request = some returned series has points in both shards, or a group result '
